@@ -36,6 +36,11 @@ type Step struct {
 type Case struct {
 	Kind  string `json:"kind"` // run | crash | chain | hist | codec | mutate | oversize
 	Hist  []HOp  `json:"hist,omitempty"`
+	// limits / conc engines
+	Limit   int    `json:"limit,omitempty"`
+	Variant string `json:"variant,omitempty"`
+	Frac    []int  `json:"frac,omitempty"`
+	Procs   int    `json:"procs,omitempty"`
 	Store int    `json:"store"`
 	// run: a chain of restarts of one store in one data directory, each ending in a shutdown snapshot
 	InitN       []NEntry `json:"init_n,omitempty"` // file found at the first start (written by an earlier version)
@@ -631,6 +636,10 @@ func runOne(t *testing.T, run *vh.Run, r *vh.Rand, c *Case, exhaustiveLimit int)
 		liveHistoryCase(t, run, c)
 	case "size":
 		sizeCase(t, run, c, false)
+	case "limits":
+		limitsCase(t, run, c)
+	case "conc":
+		concCase(t, run, c)
 	}
 }
 
@@ -714,6 +723,10 @@ func TestCheck(t *testing.T) {
 		}
 		// single records of every size class below the framing limit through Snapshot + load
 		sizesAll(t, run, r.Fork(), env)
+		// silences under a configured per-silence size limit: restart must accept what was written
+		limitsAll(t, run, r.Fork(), env)
+		// Snapshot into a slow writer while MarshalBinary runs concurrently
+		concAll(t, run, r.Fork(), env)
 		// codec differential and prefix/corruption classes
 		codecAll(t, run, r.Fork(), env)
 		// records over the 4 MiB framing limit (known finding): corpus/C11/oversize-*.json, run first on every run
